@@ -140,8 +140,7 @@ structure Cfg where
   missingValue : Bool := false   -- before 546d576: `}` while a member name waits for its value was accepted
   tkOld : Bool := false          -- before f233b47: sen.Tokenizer had no quoteDelim, no C-comment cases, no
                                  -- `continue` in commentEnd
-  -- the code AS IT IS (finding C07sen-tokenizer-exkey-not-reset; to be switched off when it is repaired):
-  keepExkey : Bool := true       -- Tokenizer.Parse/Load do not reset `exkey`
+  keepExkey : Bool := false      -- before f540857: Tokenizer.Parse/Load did not reset `exkey`
 
 structure St where
   mode : Mode := .value
@@ -777,8 +776,8 @@ def finish (s : St) (p : Pos) : Except Err Out :=
 /-- The state a call starts from, given the state `prev` the previous call on the same instance left
 behind: `Parse`/`ParseReader` (and `Tokenizer.Parse`/`Load`) reset `stack`, `tmp`, `starts`, `result`,
 `noff`, `line`, `mode`, `mi`, and (since ece2934) `plus` and `lastStrKey` (and `cb`, `resultChan`, `OnlyOne`,
-`num.Conv`, which are arguments of the call here); `ri`, `rn`, `num`, `quoteDelim`, `lastKey`, `exkey` are NOT
-reset. -/
+`num.Conv`, which are arguments of the call here), and (Tokenizer, since f540857) `exkey`; `ri`, `rn`, `num`,
+`quoteDelim`, `lastKey` are NOT reset. -/
 def St.entry (cfg : Cfg) (prev : St) : St :=
   { prev with mode := .value, starts := [], stack := [], docs := [], evs := [], tmp := [], feat := [],
               plus := if cfg.keepPlus then prev.plus else false,
